@@ -74,6 +74,7 @@ def cap_plans(nlines, tier, idx):
     if tier == 'thorough' or idx % 2 == 0: yield 'u8', 8
     v = [4 if (i + idx) % 2 else 8 for i in range(nlines)] + [4, 4, 4]
     yield 'alt', v
+    yield 'low4', [4 if i < 6 else 16 for i in range(nlines)] + [4, 4, 4]       # small capacities on the lowest line indices only
     if tier == 'thorough':
         v = [8 if (i + idx) % 3 else 4 for i in range(nlines)] + [4, 4, 4]
         yield 'alt3', v
